@@ -52,6 +52,7 @@ type world struct {
 	gw        *e2e.Gateway
 	infos     []*clusters.ClusterInfo // every cluster of the world (for isolate)
 	slow      *clusters.ClusterInfo   // the cluster of the delayed round trips (delay.go)
+	options   bool                    // the world of the options stream (options.go)
 	h2        *httptest.Server        // the SAME handler chain behind TLS + HTTP/2 (h2.go)
 	h2client  *http.Client
 	ups       map[string]*e2e.Upstream // cluster -> its upstream
@@ -130,11 +131,15 @@ func (w *world) totals() (reqs, bytes int64) {
 	return
 }
 
-func newWorld() (*world, error) {
+func newWorld() (*world, error) { return newWorldWith(false) }
+
+// newWorldWith builds the world; options = the chain is built with every shape-changing flag set (chainopts.go) and every
+// cluster has the feature gate Tracing=true next to its own gates.
+func newWorldWith(options bool) (*world, error) {
 	if os.Getenv("C04_LOG") == "" {
 		e2e.Quiet()
 	}
-	w := &world{ups: map[string]*e2e.Upstream{}, scripts: map[string]*script{}, seen: map[string][]*e2e.Seen{}}
+	w := &world{ups: map[string]*e2e.Upstream{}, scripts: map[string]*script{}, seen: map[string][]*e2e.Seen{}, options: options}
 	tokens := map[string]user.Info{
 		tokenAlice: &user.DefaultInfo{Name: "alice", Groups: []string{"dev", user.AllAuthenticated}},
 		tokenEve:   &user.DefaultInfo{Name: "eve", Groups: []string{user.AllAuthenticated}},
@@ -147,6 +152,9 @@ func newWorld() (*world, error) {
 	})
 	w.gw = e2e.New(e2e.Config{
 		Chain: func(m clusters.Manager) e2e.ChainFunc {
+			if options {
+				return optionsChain(m)
+			}
 			return e2e.ChainFunc(gatewayapp.VerifBuildProxyHandlerChain(m, false))
 		},
 		Authenticator: e2e.TokenAuthenticator(tokens),
@@ -159,6 +167,7 @@ func newWorld() (*world, error) {
 		if edit != nil {
 			edit(uc)
 		}
+		w.gate(uc)
 		ci, err := w.gw.AddCluster(uc, health, ready)
 		if ci != nil {
 			w.infos = append(w.infos, ci)
@@ -203,7 +212,7 @@ func newWorld() (*world, error) {
 	// another process (another property's gateway rig!) can bind the freed port, and then answers the forwarded
 	// request itself (seen once in a thorough run: 503 "cluster not being proxied" from a foreign gateway).
 	// Port 1 (tcpmux) is privileged and unbound: connection refused.
-	if ci, err := w.gw.AddCluster(e2e.Cluster(clDown, "http://127.0.0.1:1"), e2e.AlwaysReady, true); err != nil {
+	if ci, err := w.gw.AddCluster(w.gate(e2e.Cluster(clDown, "http://127.0.0.1:1")), e2e.AlwaysReady, true); err != nil {
 		return nil, err
 	} else {
 		w.infos = append(w.infos, ci)
@@ -212,13 +221,29 @@ func newWorld() (*world, error) {
 	// and thereby cancels what is in flight on the old one — leaves requests that are sleeping in their upstream alone
 	up := e2e.NewUpstream(w.upstreamHandler)
 	w.ups[clSlow] = up
-	ci, err := w.gw.AddCluster(e2e.Cluster(clSlow, up.URL()), e2e.AlwaysReady, true)
+	ci, err := w.gw.AddCluster(w.gate(e2e.Cluster(clSlow, up.URL())), e2e.AlwaysReady, true)
 	if err != nil {
 		return nil, err
 	}
 	w.slow = ci
 	w.startH2()
 	return w, nil
+}
+
+// gate adds the per-cluster feature gate Tracing=true in the options world (next to the cluster's own gates).
+func (w *world) gate(uc *proxyv1alpha1.UpstreamCluster) *proxyv1alpha1.UpstreamCluster {
+	if !w.options {
+		return uc
+	}
+	if uc.Annotations == nil {
+		uc.Annotations = map[string]string{}
+	}
+	g := uc.Annotations[features.FeatureGateAnnotationKey]
+	if g != "" {
+		g += ","
+	}
+	uc.Annotations[features.FeatureGateAnnotationKey] = g + "Tracing=true"
+	return uc
 }
 
 // endpointOf returns the (single) endpoint of the slow cluster.
